@@ -18,7 +18,7 @@ func init() {
 	register(&CheckDef{
 		ID:    "C06",
 		Level: "exploration",
-		Rule: "three seeded scenarios over real Stores. (1) positions: a real primary with a seeded history and a real replica whose data directory is constructed to be on the chain at any index, on a fork of any length branching at any index (it ran as a primary itself), ahead of the primary (the primary restarted from an older image and wrote 0..n other transactions: higher TXID, equal TXID with another checksum), behind a retention cut, holding only a snapshot file, or empty; they connect through the simulated network. (2) offered files: a real replica fed by a scripted primary, and a real primary's POST /tx endpoint under a held halt lock, receive well-formed files with a wrong min TXID, a wrong pre-apply checksum, a gap, corrupt bodies, and valid files. (3) the multi-node fault simulation with the monitor below on every node. Oracles: an apply monitor at the OS seam reads the header of every transaction file LiteFS is about to apply and requires a non-snapshot file to extend exactly the node's current (TXID, checksum); a replica whose position is not on the primary's history must therefore see a snapshot first; after reconnecting the replica's raw database equals the primary's byte for byte at the primary's position; an offered file that does not extend the position leaves position, raw image, log and locks unchanged and the node alive. evaluations = connects + offered files; distinct = distinct (scenario, replica class, relation of positions, bad-file class) tuples; non-trivial = a run in which a snapshot was forced or a bad file was refused",
+		Rule:  "three seeded scenarios over real Stores. (1) positions: a real primary with a seeded history and a real replica whose data directory is constructed to be on the chain at any index, on a fork of any length branching at any index (it ran as a primary itself), ahead of the primary (the primary restarted from an older image and wrote 0..n other transactions: higher TXID, equal TXID with another checksum), behind a retention cut, holding only a snapshot file, or empty; they connect through the simulated network. (2) offered files: a real replica fed by a scripted primary, and a real primary's POST /tx endpoint under a held halt lock, receive well-formed files with a wrong min TXID, a wrong pre-apply checksum, a gap, corrupt bodies, and valid files. (3) the multi-node fault simulation with the monitor below on every node. Oracles: an apply monitor at the OS seam reads the header of every transaction file LiteFS is about to apply and requires a non-snapshot file to extend exactly the node's current (TXID, checksum); a replica whose position is not on the primary's history must therefore see a snapshot first; after reconnecting the replica's raw database equals the primary's byte for byte at the primary's position; an offered file that does not extend the position leaves position, raw image, log and locks unchanged and the node alive. evaluations = connects + offered files; distinct = distinct (scenario, replica class, relation of positions, bad-file class) tuples; non-trivial = a run in which a snapshot was forced or a bad file was refused",
 		Run:   runC06,
 		NonTrivial: func(r *Run) bool {
 			return r.Stats["c06.forced-snapshot"]+r.Stats["c06.bad-refused"]+r.Stats["c06.monitor.incremental"] > 0
